@@ -20,6 +20,7 @@ import (
 	"sort"
 	"strings"
 	"sync"
+	"time"
 
 	"verifharness/sx"
 
@@ -439,6 +440,70 @@ func modeEvents(seed uint64, n int, out *sx.Out) {
 	}
 }
 
+// modeCache drives the id caches (the constructors' own, with scripted resolvers) and records every lookup with what
+// the resolver answered when it was asked.  Time only matters through pauses longer than the expiration.
+func modeCache(seed uint64, n int, out *sx.Out) {
+	pauses := 0
+	for i := 0; i < n; i++ {
+		r := sx.Fork(seed^0xcac4e, uint64(i))
+		cl, exp := "Never", time.Hour
+		switch {
+		case r.Chance(1, 3):
+			cl, exp = "Always", -time.Second
+		case pauses < 3 && r.Chance(1, 6):
+			cl, exp = "AfterPause", time.Second
+			pauses++
+		}
+		tick := 0
+		var asked *string
+		users, groups := aucoalesce.VerifEntityCaches(exp, func(cache, kind int, key string) string {
+			v := ""
+			if key != "" && key[0] != 'x' {
+				v = fmt.Sprintf("n%d%d:%s.%d", cache, kind, key, tick)
+			}
+			asked = &v
+			return v
+		})
+		caches := []*aucoalesce.EntityCache{users, groups}
+		keys := []string{"0", "root", "1000", "1001", "alice", "staff", "x9", "xbob", "", "unset", "0 ", "7"}
+		var ops, obs []string
+		paused := false
+		for k := 6 + r.Intn(12); k > 0; k-- {
+			c := r.Intn(100)
+			switch {
+			case c < 12:
+				w, id, name := r.Intn(2), sx.Pick(r, []string{"1000", "7", "0", "1001"}), sx.Pick(r, []string{"alice", "staff", "root", "n00:1000.0"})
+				aucoalesce.VerifHardcode(caches[w], id, name)
+				ops = append(ops, fmt.Sprintf("CHard %d %s %s", w, cs(id), cs(name)))
+				obs = append(obs, "None")
+			case c < 20 && cl == "AfterPause" && !paused:
+				paused = true
+				time.Sleep(1300 * time.Millisecond)
+				tick++
+				ops = append(ops, "CPause")
+				obs = append(obs, "None")
+			default:
+				w, kind, key := r.Intn(2), r.Intn(2), sx.Pick(r, keys)
+				asked = nil
+				var v string
+				if kind == 0 {
+					v = caches[w].LookupID(key)
+				} else {
+					v = caches[w].LookupName(key)
+				}
+				a := "None"
+				if asked != nil {
+					a = "(Some " + cs(*asked) + ")"
+				}
+				ops = append(ops, fmt.Sprintf("CLookup %d %d %s", w, kind, cs(key)))
+				obs = append(obs, fmt.Sprintf("(Some (%s, %s))", cs(v), a))
+			}
+		}
+		out.Case(fmt.Sprintf("KCache (CCase %s [%s] [%s])", cl, strings.Join(ops, "; "), strings.Join(obs, "; ")),
+			map[string]interface{}{"case": i, "expiration": exp.String(), "ops": len(ops)}, "id-cache/"+cl, true)
+	}
+}
+
 func modeModes(out *sx.Out) {
 	for mode := 0; mode < 65536; mode++ {
 		sys, _ := auparse.Parse(auparse.AUDIT_SYSCALL, "audit(1.002:3): arch=c000003e syscall=2 success=yes exit=3 items=1 pid=1 auid=0 uid=0 comm=\"x\" exe=\"/x\" key=(null)")
@@ -499,6 +564,8 @@ func main() {
 	switch *mode {
 	case "events":
 		modeEvents(*seed, *n, out)
+	case "cache":
+		modeCache(*seed, *n, out)
 	case "modes":
 		modeModes(out)
 	case "race":
